@@ -130,7 +130,9 @@ def call(ip, name, args, kw):
         x = A.LUsolve(sp.Matrix(b.tolist()))
         return to_obj_array(list(x)) if b.ndim == 1 else to_obj_array(x.tolist())
     if name == "hypot":
-        return sp.sqrt(S(args[0]) ** 2 + S(args[1]) ** 2)
+        a2 = ip.binop(ast.Mult, args[0], args[0])
+        b2 = ip.binop(ast.Mult, args[1], args[1])
+        return vmap(sp.sqrt, ip.binop(ast.Add, a2, b2))
     if name == "arctan2":
         return sp.atan2(S(args[0]), S(args[1]))
     if name == "power":
@@ -228,7 +230,9 @@ def call(ip, name, args, kw):
     if name == "errstate":
         return Opaque("errstate")
     if name == "finfo":
-        return Opaque("finfo")
+        from .kpe import SymObj
+        return SymObj(None, {"eps": sp.Rational(1, 2 ** 52), "tiny": sp.Rational(1, 2 ** 1022), "max": sp.oo,
+                             "resolution": sp.Rational(1, 10 ** 15)}, "finfo")
     if name == "trace":
         a = to_obj_array(args[0])
         return sum((a[i, i] for i in range(min(a.shape))), sp.Integer(0))
